@@ -159,6 +159,17 @@ def parallel_stage(ctx, thorough, protos=None, sflow_filter=None):
                         m, _ = gs.datagram(v6=v6, sub=sub, seq=seq, only=1)
                         if len(m) <= 1400:
                             j["data"].append({"exp": j["data"][0]["exp"], "buf": m})
+            # several samples, the last one cut: the datagram does not decode and nothing is published for it - not the samples
+            # read before the error either, and certainly not samples of a listed type
+            seen = {tuple(d["buf"]) for d in j["data"]}
+            for i, dg in enumerate(list(j["data"])):
+                b = dg["buf"]
+                if len(b) > 120 and b[4:8] == [0, 0, 0, 1] and b[24:28] not in ([0, 0, 0, 0], [0, 0, 0, 1]):
+                    for cut in (5, 12 + 4 * (i % 7)):
+                        c = b[:len(b) - cut]
+                        if tuple(c) not in seen:
+                            seen.add(tuple(c))
+                            j["data"].append({"exp": dg["exp"], "buf": c})
             jobs.append(j)
     for i, j in enumerate(jobs):
         j["id"] = 900 + i
